@@ -8,6 +8,8 @@ HERE="$(cd "$(dirname "$0")/.." && pwd)"
 WT=/tmp/pav_wt_$$
 git -C /repo worktree add --detach -q $WT HEAD || exit 3
 # carry over uncommitted changes? no: /repo is kept clean
+# pending repairs proposed by this property's builder (not yet committed to /repo) are applied first, if they still apply
+for f in $HERE/fixes/${PID}_*.diff; do [ -f "$f" ] && (git -C $WT apply "$f" 2>/dev/null || true); done
 if [[ "$CH" == sed:* ]]; then
   IFS=: read -r _ F E <<< "$CH"
   sed -i "$E" $WT/$F
